@@ -73,6 +73,8 @@ type CrashChoice struct {
 	Keep    []int `json:"keep"` // kept pending ops (positions in the pending list)
 	TearPos int   `json:"tear_pos"`
 	TearLen int   `json:"tear_len"`
+	Cont    bool  `json:"cont,omitempty"`   // a continuation workload ran on the recovered image
+	Nested  bool  `json:"nested,omitempty"` // the continuation was cut by a second crash enumeration
 }
 
 // Case is a completely described simulation run. A Case with only Prop and Seed
